@@ -388,7 +388,11 @@ func (e *Engine) lemmaObligations(prop string) ([]*Obligation, string) {
 			st := e.newEntryState()
 			rt.entry = st
 			r := &FnRun{root: rt, e: e, vals: map[ssa.Value]Val{}, names: map[string]ssa.Value{}}
-			env := r.newEnv(st, st)
+			// a lemma is proved for an arbitrary pair of (current, old) states, so using it anywhere is sound
+			cur := e.newEntryState()
+			cur.M, cur.RA, cur.BA, cur.BH = e.tb.Var("Mcur", ByteAr), e.tb.Var("RAcur", BoolAr), e.tb.Var("BAcur", BoolAr), e.tb.Var("BHcur", ObjAr)
+			cur.SB, cur.SO = e.tb.Var("SBcur", WordAr), e.tb.Var("SOcur", WordAr)
+			env := r.newEnv(cur, st)
 			for i, pn := range l.Params {
 				pt, ok := specTypes[l.PTypes[i]]
 				if !ok {
